@@ -1,3 +1,4 @@
--- This module serves as the root of the `Rbgp` library.
--- Import modules here that should be built as part of the library.
-import Rbgp.Basic
+-- Root of the `Rbgp` library: the line protocol; property modules are built by name
+-- (`lake build Rbgp.Cxx.Props drv_cxx`), see /verif/check.
+import Rbgp.Term
+import Rbgp.Drv
